@@ -1,6 +1,7 @@
 # Breaking edits (each still compiles; by inspection invisible to the pinned suite). 'rule' must be reported.
 B = "core/BoundedSPSCQueue.h"
 U = "core/UnboundedSPSCQueue.h"
+BW = "backend/BackendWorker.h"
 CASES = [
  # ---------------- C01
  dict(name="c01-commit_write-relaxed", ids=["C01"], rule="C01.R1b", subs=[(B, "_atomic_writer_pos.store(_writer_pos, std::memory_order_release)", "_atomic_writer_pos.store(_writer_pos, std::memory_order_relaxed)")]),
@@ -103,4 +104,59 @@ CASES = [
     _consumer = next_node;""", """    _consumer = next_node;
     delete _consumer;
 """)]),
+
+ # ---------------- C09
+ dict(name="c09-prefix-commit_read", ids=["C09"], rule="C09.R1", subs=[(B, " ||\n        (_reader_pos == _writer_pos_cache))", ")")]),
+ dict(name="c09-stale-retry", ids=["C09"], rule="C09.R2a", subs=[("Logger.h", """          // not enough space to push to queue, keep trying
+          write_buffer = _prepare_write_buffer(total_size);
+        } while (write_buffer == nullptr);""", """          // not enough space to push to queue, keep trying
+          (void)_prepare_write_buffer(total_size);
+        } while (false);
+        write_buffer = _prepare_write_buffer(total_size);""")]),
+ dict(name="c09-commit_read-only-when-capacity-reached", ids=["C09"], rule="C09.R3", subs=[(BW, "    if (total_bytes_read != 0)\n    {", "    if (total_bytes_read >= queue_capacity)\n    {")]),
+ dict(name="c09-refuse-without-reload", ids=["C09", "C01"], rule="R", subs=[(B, """      // not enough space, we need to load reader and re-check
+      _reader_pos_cache = _atomic_reader_pos.load(std::memory_order_acquire);
+
+      if""", """      // not enough space, we need to load reader and re-check
+      if (n > _capacity) { return nullptr; }
+      _reader_pos_cache = _atomic_reader_pos.load(std::memory_order_acquire);
+
+      if""")]),
+ # ---------------- C03
+ dict(name="c03-finish_read-hoisted", ids=["C03"], rule="C03.R1", subs=[(BW, """      if (!_populate_transit_event_from_frontend_queue(read_pos, thread_context, ts_now))
+      {
+        // If _get_transit_event_from_queue returns false, stop reading
+        break;
+      }
+""", """      bool const populated = _populate_transit_event_from_frontend_queue(read_pos, thread_context, ts_now);
+"""), (BW, """      total_bytes_read += bytes_read;
+      // Reads a maximum""", """      total_bytes_read += bytes_read;
+      if (!populated) { break; }
+      // Reads a maximum""")]),
+ dict(name="c03-pop-inside-try", ids=["C03"], rule="C03.R3", subs=[(BW, "    QUILL_TRY { _process_transit_event(*thread_context, *transit_event, flush_flag); }", "    QUILL_TRY { _process_transit_event(*thread_context, *transit_event, flush_flag); thread_context->_transit_event_buffer->pop_front(); }"), (BW, """    thread_context->_transit_event_buffer->pop_front();
+
+    if (flush_flag)""", """    if (flush_flag)""")]),
+ dict(name="c03-removal-drops-buffer-test", ids=["C03"], rule="C03.R5d", subs=[(BW, """          return thread_context->get_spsc_queue_union().unbounded_spsc_queue.empty() &&
+            thread_context->_transit_event_buffer->empty();""", """          return thread_context->get_spsc_queue_union().unbounded_spsc_queue.empty();""")]),
+ dict(name="c03-break-after-first-sink", ids=["C03"], rule="C03.R4", subs=[(BW, """                        transit_event.named_args.get(), log_message, log_to_write);
+      }
+    }
+  }""", """                        transit_event.named_args.get(), log_message, log_to_write);
+        break;
+      }
+    }
+  }""")]),
+ dict(name="c03-double-pop", ids=["C03"], rule="C03.R3a", subs=[(BW, """    if (flush_flag)
+    {
+      // Process the second part""", """    if (flush_flag)
+    {
+      if (thread_context->_transit_event_buffer->front()) { thread_context->_transit_event_buffer->pop_front(); }
+      // Process the second part""")]),
+ dict(name="c03-push_back-on-hold-back", ids=["C03", "C05"], rule="R2", subs=[(BW, """        // We return at this point without adding the current event to the buffer.
+        return false;""", """        // We return at this point without adding the current event to the buffer.
+        thread_context->_transit_event_buffer->push_back();
+        return false;""")]),
+ dict(name="c03-expand-reverses", ids=["C03"], rule="C03.R6a", subs=[("backend/TransitEventBuffer.h", "new_storage[i] = std::move(_storage[(_reader_pos + i) & _mask]);", "new_storage[i] = std::move(_storage[(_writer_pos - 1 - i) & _mask]);")]),
+ dict(name="c03-expand-writer-pos", ids=["C03"], rule="C03.R6b", subs=[("backend/TransitEventBuffer.h", "    _writer_pos = current_size;\n    _reader_pos = 0;\n  }", "    _writer_pos = new_capacity;\n    _reader_pos = 0;\n  }")]),
+ dict(name="c03-stale-consumed-size", ids=["C03"], rule="C03.R1b", subs=[(BW, "      std::byte const* const read_begin = read_pos;\n", ""), (BW, "    size_t total_bytes_read{0};\n", "    size_t total_bytes_read{0};\n    std::byte const* read_begin = nullptr;\n"), (BW, "      if (!read_pos)\n      {\n        // Exit loop nothing to read\n        break;\n      }", "      if (!read_pos)\n      {\n        // Exit loop nothing to read\n        break;\n      }\n      if (!read_begin) { read_begin = read_pos; }")]),
 ]
